@@ -204,7 +204,9 @@ def build_events(spec, evs, shift=0, order=None):
     sub = bool(spec.get("subclassed"))
     # with "subclassed", every other plug-in and all stand-alone recompute / unplug events are
     # instances of user-defined subclasses of the stock event classes
-    events = [(TaggedPluginEvent if sub and k % 2 == 0 else PluginEvent)(evs[s["id"]].arrival, evs[s["id"]]) for k, s in enumerate(spec["sessions"])]
+    # sessions with "added_at" are not known when the queue is first filled: their plug-in events are
+    # added while the run is in progress (late_sessions_due)
+    events = [(TaggedPluginEvent if sub and k % 2 == 0 else PluginEvent)(evs[s["id"]].arrival, evs[s["id"]]) for k, s in enumerate(spec["sessions"]) if s.get("added_at") is None]
     events += [(TaggedRecomputeEvent if sub else RecomputeEvent)(t + shift) for t in spec.get("recomputes", [])]
     # explicit departures ahead of the session's own departure (the simulator's own unplug event
     # at ev.departure then finds the EV gone)
@@ -358,6 +360,26 @@ def run_decoy(spec):
     return d
 
 
+def late_sessions_due(sched, t):
+    """Bookings that come in while the simulated day is already running: from period `added_at` on
+    (always before the session's arrival) the session's plug-in event is added to the simulator's
+    own event queue - here from inside the scheduling algorithm, the one piece of user code that
+    runs during run().  A session the simulator already knows (pending or plugged in, also after a
+    JSON reload) is not added again."""
+    specs = getattr(sched, "late_specs", None)
+    if not specs:
+        return
+    sim = sched.interface._simulator
+    pending = {e.ev.session_id for _, e in sim.event_queue.queue if hasattr(e, "ev") and e.event_type == "Plugin"}
+    for x in specs:
+        sid = x["id"]
+        if t < x["added_at"] + sched.late_shift or sid in sim.ev_history or sid in pending:
+            continue
+        ev = sched.late_evs.get(sid) or build_ev(x, sched.late_shift)
+        sched.late_evs[sid] = ev
+        sim.event_queue.add_event(PluginEvent(ev.arrival, ev))
+
+
 def decoy_due(sched, t):
     dec = getattr(sched, "decoy", None)
     if not dec or dec.get("mode") != "nested":
@@ -417,6 +439,7 @@ class Scripted(BaseAlgorithm):
     def schedule(self, active_sessions):
         t = self.interface.current_time
         decoy_due(self, t)
+        late_sessions_due(self, t)
         if self.observer is not None:
             self.observer(self, active_sessions)
         if crash_due(self, t):
@@ -493,6 +516,7 @@ class Wrapped(BaseAlgorithm):
     def schedule(self, active_sessions):
         t = self.interface.current_time
         decoy_due(self, t)
+        late_sessions_due(self, t)
         if self.observer is not None:
             self.observer(self, active_sessions)
         if crash_due(self, t):
@@ -548,6 +572,8 @@ def make_scheduler(spec, observer=None, crash_at=None, shift=0):
     else:
         a = Wrapped(make_inner(sch), observer, crash_at)
     a.decoy, a.decoy_parent = spec.get("decoy"), spec
+    a.late_specs = [x for x in spec["sessions"] if x.get("added_at") is not None]
+    a.late_evs, a.late_shift = {}, shift
     return a
 
 
@@ -574,6 +600,7 @@ def warmed_up_scheduler(spec, observer, crash_at, shift):
         sched.ncalls, sched.malformed_done, sched._out = 0, False, {}
     sched.observer, sched.crash_at, sched.crashed = observer, crash_at, False
     sched.decoy, sched.decoy_parent = spec.get("decoy"), spec
+    sched.late_evs = {}
     return sched
 
 
@@ -613,6 +640,8 @@ def build_sim(spec, observer=None, crash_at=None, shift=0, net_cls=ChargingNetwo
     if handed_down:
         # the documented way to give a simulator its algorithm after construction
         sim.update_scheduler(scheduler)
+    if getattr(scheduler, "late_specs", None):
+        scheduler.late_evs = evs
     if late is not None:
         q.add_events([e for _, e in late.queue])
     return Handle(spec, sim, net, evs, scheduler)
@@ -631,6 +660,12 @@ def run_sim(h):
             h.sim.run()
     finally:
         np.random.normal = orig
+        # a session that was added while the run was in progress by a scheduler object built later
+        # (after a scheduler swap, on a restored simulator) is the EV object the simulator reports
+        if isinstance(h.evs, dict):
+            for x in h.spec.get("sessions", []):
+                if x.get("added_at") is not None and x["id"] in h.sim.ev_history:
+                    h.evs[x["id"]] = h.sim.ev_history[x["id"]]
     return h
 
 
@@ -979,6 +1014,24 @@ def scenarios(
             # the "submit once per event" variant must cover the longest gap between events
             for e in sch["table"]:
                 e["rows"] = {k: [v[0]] * (last + 2) for k, v in e["rows"].items()}
+    if extras and len(sessions) >= 2 and draw(st.integers(0, 5)) == 0:
+        # bookings that come in during the day: known to the simulator only from a generated period
+        # before their arrival on (the first scheduler call at or after it adds the plug-in event).
+        # The other sessions anchor the day: the run is under way - and the scheduler is being called
+        # - up to their last event, whatever comes in later.  With max_recompute 1 several sessions
+        # may come in late; otherwise one (a second newcomer would move the periodic calls).
+        mr_ = sch.get("max_recompute") if sch["kind"] == "scripted" else sch.get("max_recompute", 1)
+        cand = [x for x in sessions if draw(st.booleans())]
+        if mr_ != 1:
+            cand = cand[:1]
+        if len(cand) == len(sessions):
+            cand = cand[1:]
+        anchors = [x for x in sessions if not any(x is c for c in cand)]
+        probe = Model({"stations": stations, "sessions": anchors, "recomputes": recomputes, "inert": inert, "scheduler": sch})
+        for x in cand:
+            early = [t for t in probe.invocations if t < x["arrival"]]
+            if early:
+                x["added_at"] = draw(st.sampled_from(early))
     nev = len(sessions) + len(recomputes) + len(inert)
     return {
         "period": draw(PERIODS),
@@ -1067,6 +1120,8 @@ def scenario_labels(spec):
         labels.add("second_site_same_ids_simulated_" + ("inside_a_scheduler_call" if spec["decoy"]["mode"] == "nested" else "first"))
     if spec.get("handed_down"):
         labels.add("scheduler_object_already_served_another_simulator")
+    if any(x.get("added_at") is not None for x in spec["sessions"]):
+        labels.add("sessions_added_while_the_run_is_in_progress")
     if spec.get("stretch", 1) > 1:
         labels.add("long_run_hundreds_of_periods")
     if max(len(v) for v in by_station.values()) >= 12:
